@@ -106,6 +106,8 @@ pub enum CallKind {
     WrapperDecompressTiny(u8),
     DecompressZstdTiny(u8),
     DecompressGarbage(u8),
+    /// reconstruction from correction data whose first byte (the format version) is damaged
+    RecompressHostile(u8),
 }
 
 impl CallKind {
@@ -124,6 +126,7 @@ impl CallKind {
             CallKind::WrapperDecompressTiny(_) => "WrapperDecompressZip(16 byte window)",
             CallKind::DecompressZstdTiny(_) => "decompress_zstd(capacity 8)",
             CallKind::DecompressGarbage(_) => "decompress_deflate_stream(invalid stream)",
+            CallKind::RecompressHostile(_) => "recompress_deflate_stream(damaged corrections)",
         }
     }
     fn to_json(&self) -> J {
@@ -140,6 +143,7 @@ impl CallKind {
             CallKind::WrapperDecompressTiny(i) => ("wrapper_decompress_tiny", i, false),
             CallKind::DecompressZstdTiny(i) => ("decompress_zstd_tiny", i, false),
             CallKind::DecompressGarbage(i) => ("decompress_garbage", i, false),
+            CallKind::RecompressHostile(i) => ("recompress_hostile", i, false),
         };
         J::Str(format!("{}:{}:{}", k, i, v as u8))
     }
@@ -162,6 +166,7 @@ impl CallKind {
             "wrapper_decompress_tiny" => CallKind::WrapperDecompressTiny(i),
             "decompress_zstd_tiny" => CallKind::DecompressZstdTiny(i),
             "decompress_garbage" => CallKind::DecompressGarbage(i),
+            "recompress_hostile" => CallKind::RecompressHostile(i),
             _ => return None,
         })
     }
@@ -294,6 +299,14 @@ pub fn perform(pool: &Pool, call: CallKind) -> CallOutput {
             CallKind::DecompressZstdTiny(i) => {
                 let Some(b) = &pool.blobs[i as usize] else { return Err(-1000) };
                 preflate_rs::decompress_zstd(b, 8).map_err(|e| e.exit_code().as_integer_error_code())
+            }
+            CallKind::RecompressHostile(i) => {
+                let Some((p, c)) = &pool.splits[i as usize] else { return Err(-1000) };
+                let mut c: Vec<u8> = c.to_vec();
+                if !c.is_empty() {
+                    c[0] ^= 0xff;
+                }
+                preflate_rs::recompress_deflate_stream(p, &c).map_err(|e| e.exit_code().as_integer_error_code())
             }
             CallKind::DecompressGarbage(i) => {
                 let mut s = pool.streams[i as usize].to_vec();
@@ -429,7 +442,7 @@ pub fn build_reference(pool: &mut Pool) -> Reference {
         }
     }
     for i in 0..ns as u8 {
-        for c in [CallKind::Recompress(i), CallKind::DecompressGarbage(i)] {
+        for c in [CallKind::Recompress(i), CallKind::DecompressGarbage(i), CallKind::RecompressHostile(i)] {
             let (o, n) = counted(|| perform(pool, c));
             calls.push(c);
             outputs.push(o);
@@ -1092,7 +1105,7 @@ fn gen_plan(rng: &mut Rng, reference: &Reference, tier: Tier, exec_no: u64, big_
             // reconstruction side only
             1 => matches!(
                 c,
-                CallKind::Recreate(_) | CallKind::DecompressZstd(_) | CallKind::WrapperDecompress(_) | CallKind::Recompress(_) | CallKind::WrapperDecompressTiny(_) | CallKind::DecompressZstdTiny(_)
+                CallKind::Recreate(_) | CallKind::DecompressZstd(_) | CallKind::WrapperDecompress(_) | CallKind::Recompress(_) | CallKind::WrapperDecompressTiny(_) | CallKind::DecompressZstdTiny(_) | CallKind::RecompressHostile(_)
             ),
             // analysis side only
             2 => matches!(
